@@ -158,3 +158,21 @@ def c05(run):
                        '(int, int64, uint64, key.Alg, int32, text, null, float, bytes, out-of-range, bool) x headers present/absent/nil; COSE_Sign with 1-3 signers and verifiers by kid; '
                        'thorough: all 24x24 ordered pairs x 5 kinds x 3 representations')
     return D.finish(run, 'proof')
+
+
+# ------------------------------------------------------------------ C06
+
+@check('C06')
+def c06(run):
+    run.assumptions += ['H-rng: successive draws of crypto/rand are distinct (hypothesis NoDup draws of C06_fresh_nonces_distinct); the harness substitutes crypto/rand.Reader to observe that the draw is used verbatim',
+                        'Decrypt = Encrypt nonce is proved on the header maps; its passage through CBOR is observed by the correspondence (and proved in C09)']
+    run.trusted += ['model of Encrypt/Decrypt nonce selection and xorIV in coq/Model/Nonce.v (validated by the nonce correspondence with a recording fake encryptor)']
+    D.prove(run, extra_targets=['Model/NonceCorr.vo'])
+    rc, o = D.harness_build()
+    if rc != 0:
+        run.broke('harness build', o[-1500:])
+    else:
+        D.correspond(run, 'nonce', [])
+    run.cov['rule'] = ('Encrypt0/Encrypt x nonce sizes 7/12/13 x IV, Partial IV, Base IV presences, lengths 0..20 and wrong types, with a known entropy stream and a recording encryptor (Encrypt and Decrypt); '
+                       '12 real AEADs x nonce lengths 0..17; library-chosen nonces of fresh messages under real entropy (quick 3x4000, thorough 3x200000)')
+    return D.finish(run, 'proof')
